@@ -894,7 +894,11 @@ class Machine:
         for (name, what, it) in clauses:
             items = self.iterate(self.ev(it, env), what)
             if isinstance(items, tuple):
-                raise Unspec("comprehension over map values: order")
+                if what != "values":
+                    # no selector: what a comprehension over a map yields
+                    # is not what the loop visits (known finding of C04)
+                    raise Unspec("comprehension over a map, no selector")
+                items = items[1]      # the values in key order
             seqs.append(items)
         rows = []
         if mode == "single":
